@@ -273,7 +273,7 @@ struct BufSys : World {
 	{
 		std::string s;
 		for (int i = 0; i < cfg.nslots; ++i) s += fmt("s%d=%d ", i, so[i]);
-		for (size_t o = 0; o < objs.size(); ++o) s += fmt("o%zu:%s,raw%d,%s ", o, objs[o].dead ? "dead" : cstr(o).c_str(), objs[o].raw, objs[o].phantom ? "hi" : "n");
+		for (size_t o = 0; o < objs.size(); ++o) { if (objs[o].dead) s += fmt("o%zu:dead ", o); else s += fmt("o%zu:%s,raw%d,%s ", o, cstr(o).c_str(), objs[o].raw, objs[o].phantom ? "hi" : "n"); }
 		s += fmt("created=%d", created);
 		return s;
 	}
@@ -495,11 +495,12 @@ struct MetaSys : World {
 		for (int i = 0; i < cfg.nslots; ++i) s += fmt("s%d=%d ", i, so[i]);
 		for (size_t o = 0; o < objs.size(); ++o) {
 			const Obj &b = objs[o];
-			s += fmt("o%zu:%s,%s,raw%d,%s%s[", o, kname[b.kind], b.dead ? "dead" : cstr(o).c_str(), b.raw, b.phantom ? "hi" : "n", b.armed ? ",armed" : "");
+			if (b.dead) { s += fmt("o%zu:dead ", o); continue; }
+			s += fmt("o%zu:%s,%s,raw%d,%s%s[", o, kname[b.kind], cstr(o).c_str(), b.raw, b.phantom ? "hi" : "n", b.armed ? ",armed" : "");
 			for (int e : b.holds) s += fmt("%d,", e);
 			s += "] ";
 		}
-		for (size_t i = 0; i < defs.size(); ++i) s += fmt("d%zu=%d/%d ", i, defs[i].ctx, (int) defs[i].live);
+		for (size_t i = 0; i < defs.size(); ++i) s += defs[i].live ? fmt("d%zu=%d ", i, defs[i].ctx) : fmt("d%zu=- ", i);
 		if (cfg.refbuf) s += fmt("rb=%d,%d ", rbo[0], rbo[1]);
 		s += fmt("created=%d", created);
 		return s;
@@ -771,7 +772,9 @@ struct MetaSys : World {
 			}
 			if (!can_addref(o)) return fail("accepted-at-limit", "defer handed out a handle although the context count cannot be raised");
 			Deferred df; df.h = h; df.block = find_block(h); df.ctx = o; df.live = true;
-			defs.push_back(df);
+			size_t slot = 0;
+			while (slot < defs.size() && defs[slot].live) ++slot;   // a finished (and verified freed) entry is reused: the table stays bounded
+			if (slot < defs.size()) defs[slot] = df; else defs.push_back(df);
 			retain(o); objs[o].armed = false; nontrivial = true;
 			break; }
 		case M_DREPLY: {
@@ -1026,7 +1029,7 @@ static bool configure(const std::string &job, Tier tier)
 	else if (k == "stream") cfg.kinds = {K_STREAM, K_CNT};
 	else if (k == "iobuffer") cfg.kinds = {K_IOBUF, K_CNT};
 	else if (k == "reply") { cfg.kinds = {K_REPLY}; cfg.reply = true; cfg.cxx = false; cfg.traits = false; }
-	else if (k == "refarray") { cfg.kinds = {K_CNT, K_GENINFO}; cfg.refbuf = true; cfg.cxx = false; cfg.traits = false; cfg.clone = false; cfg.conv = false; }
+	else if (k == "refarray") { cfg.kinds = {K_CNT, K_GENINFO}; cfg.refbuf = true; cfg.nslots = S = 2; cfg.cap = 2; cfg.rawcap = 1; cfg.cxx = false; cfg.traits = false; cfg.clone = false; cfg.conv = false; }
 	else if (k == "mixed") { cfg.kinds = {K_GENINFO, K_RAW, K_REPLY, K_CXX}; cfg.cxx = false; cfg.traits = false; cfg.clone = false; }
 	else return false;
 	if (getenv("C15_DEPTH")) cfg.depth = atoi(getenv("C15_DEPTH"));   // DEV-ONLY
